@@ -2,7 +2,7 @@ package driver
 
 import "github.com/avos-io/goat"
 
-func (rt *runtimeS) serverObservers() []goat.ServerOption { return nil }
+func (rt *runtimeS) serverObservers() []goat.ServerOption    { return nil }
 func (rt *runtimeS) clientObservers(i int) []goat.DialOption { return nil }
-func (rt *runtimeS) setupTopo()                            { panic("verif-harness: topology not implemented: " + rt.sc.Topo) }
-func (rt *runtimeS) stepExtra(st Step) bool                { return false }
+func (rt *runtimeS) setupTopo()                              { panic("verif-harness: topology not implemented: " + rt.sc.Topo) }
+func (rt *runtimeS) stepExtra(st Step) bool                  { return false }
